@@ -49,6 +49,15 @@ claims.update({
  "C04": dict(level="proof", engine="E1 absint (D-poly + D-int + constant-folded Decode)", technique="static analysis: symbolic byte-layout of the encoders on (X:Y:Z) vs the SEC1 normal form; scaling lemma on the normal form; identity outputs constant-folded through Decode",
     text="Encode/MarshalBinary/Hex/XCoordinate/EncodeUncompressed are interpreted on a symbolic projective point: bytes and length must be the SEC1 layout of the affine normal form (x·inv0 z, ite(z=0,1,y·inv0 z)), for every (X:Y:Z); the normal form is proven invariant under non-zero scaling; each encoder's constant output for the identity is fed through the Decode analysis and must be accepted as the identity. Non-identity round trips then follow from C03's success state and the prefix/parity polarity checked here.",
     note=PM, ref="3 C04"),
+ "C06": dict(level="other", engine="E1 absint (D-poly over F_n + math/big model)", technique="static analysis: symbolic evaluation of every scalar operation (all aliasings, nil conventions), exponent of the inversion chain from its own code, math/big calls of Pow followed on integer terms",
+    text="Decides the hand-written scalar layer: each operation's receiver is the exact F_n expression (s+t, s-t, s·t, s^2, s^(n-2), i mod n, 0, 1, -1) under every aliasing and nil convention; the 293-step inversion chain's exponent is n-2; Pow's three guard classes and its math/big data flow (modulus n from Order(), Exp(base s, exponent t, modulus n), left-padding to BE32, decode) give s^t mod n; all Fiat preconditions (< n) are proven. Level 'other' because the word-level carry chains inside the generated primitives are assumed, not decided.",
+    note="Not decided: Fiat-generated word-level arithmetic (trusted leaf specifications); math/big contracts.", ref="3 C06"),
+ "C11": dict(level="proof", engine="E1 absint (D-poly with predicate variables + power summaries)", technique="static analysis: guarded-polynomial evaluation of SSWU, sqrt_ratio and the 3-isogeny on symbolic inputs vs the RFC 9380 straight-line programs evaluated in the same algebra",
+    text="SSWU(u), field.SqrtRatio(u,v) and IsogenySecp256k13iso(x',y') are interpreted on symbolic field elements; the results must equal, as polynomials with predicate variables and power atoms (x^((p-3)/4), inv0), the RFC 9380 F.2 / F.2.1.2 / E.1 programs with Z=-11, A', B', c2^2=-Z and the 13 isogeny constants, including the three exceptional u and the sign rule; one path, no panic, all preconditions proven. Covers all p field elements because u is a symbol.",
+    note=PM+" RFC 9380 is the oracle; that its output is on the curve is the RFC's theorem.", ref="3 C11"),
+ "C12": dict(level="other", engine="E1 absint", technique="static analysis: symbolic evaluation of the hand-written field layer (wrappers under all aliasings, chain exponents, sqrt_ratio, predicates, cmov, reduce/parse/serialise/wide reduction) with Fiat primitives as trusted leaves",
+    text="Decides everything in internal/field that is not Fiat-generated: wrapper pass-through under every aliasing, chain exponents p-2 and (p-3)/4 from the chains' own code, SqrtRatio = RFC F.2.1.2, Sgn0/IsZero/Equals/CMove semantics (bit idioms analysed, not assumed), Reduce with the code's limbs of p, parser flag, serialiser layout, 48-byte wide reduction, and the < p typestate at every primitive call. Level 'other': the word-level carry chains of the generated primitives are not decided.",
+    note="Not decided: Fiat-generated word-level arithmetic (trusted leaf specifications).", ref="3 C12"),
 })
 pending = {}
 ids = ["C%02d" % i for i in range(1, 20)]
